@@ -15,10 +15,10 @@ LOCAL PP == INSTANCE PipelineProps
 
 OutFams  == {"xml", "soap11", "soap12", "json", "yaml", "msgpack", "mprpc", "http"}
 Soap     == {"soap11", "soap12"}
-First    == {"Client", "Server", "X"}
+First    == {"Client", "Server", "X", "Clientele"}     \* ("Clientele...": begins like Client, is not the Client family)
 Subs     == {<<>>, <<"A">>, <<"b", "uu">>, <<"Q", "R", "S">>}
 Msgs     == {"plain", "uni", "markup", "spaces", "long"}
-Details  == {"none", "flat", "nested", "multi", "unikey"}
+Details  == {"none", "flat", "nested", "multi", "unikey", "falsy"}     \* falsy: leaves 0 and False
 Excs     == {"ValueError", "KeyError", "Hostile", "Chained", "SecretType", "BaseFaultLike"}
 Methods  == {"f", "g", "gen"}       \* gen: a generator function that raises before its first yield
 
@@ -30,6 +30,7 @@ DetailTree(d) ==
     [] d = "nested" -> <<"map", << <<"k", <<"map", << <<"j", Leaf("v")>> >> >> >> >> >>
     [] d = "multi"  -> <<"map", << <<"k", <<"map", << <<"j", Leaf("v")>> >> >> >>, <<"n", Leaf("x")>> >> >>
     [] d = "unikey" -> <<"map", << <<"n", Leaf("uni")>> >> >>
+    [] d = "falsy"  -> <<"map", << <<"k", <<"map", << <<"j", Leaf("false")>> >> >> >>, <<"n", Leaf("zero")>> >> >>
 
 Dedicated == { [cls |-> "toolong",    code |-> <<"Client", "RequestTooLong">>],
                [cls |-> "notfound",   code |-> <<"Client", "ResourceNotFound">>],
